@@ -146,35 +146,35 @@ def install_misc(ex, st):
     add(r'(?:semver::)?VersionReq::parse', req_parse)
     add(r'(?:semver::)?VersionReq::matches', lambda ex, c, a: deref(a[1]).v <= deref(a[0]).v)
 
-    # BlockDir::open / list_blocks use tokio JoinSet: modelled as "the set of non-empty, well-named block files"
-    def list_blocks(ex, c, a):
-        t = deref(a[0])
+    # tokio JoinSet / Semaphore: spawned futures run to completion at spawn time; results are joined in spawn order
+    class JoinSetV(Model):
+        ty = 'JoinSet'
 
-        def thunk():
-            e = st.step('list_dir', t.full(''), False)
-            if e is not None:
-                return err(enum_val(ex, 'errors::Error', 'ListBlocks', [e]))
-            s = M.SetV()
-            base = t.full('')
-            for sub in st.children(base):
-                p = base + '/' + sub
-                if st.nodes[p].kind != 'dir' or len(sub) != 3:
-                    continue
-                e = st.step('list_dir', p, False)
-                if e is not None:
-                    return err(enum_val(ex, 'errors::Error', 'ListBlocks', [e]))
-                for name in st.children(p):
-                    n = st.nodes[p + '/' + name]
-                    if n.kind != 'file':
-                        continue
-                    h = hash_by_name(st, name)
-                    if h is None:
-                        continue
-                    if ex.branch(b_lt(0, n.payload.length(ex)), 'block non-empty'):
-                        s.items.append(h)
-            return ok(s)
-        return M.ReadyFuture(thunk)
-    add(r'(?:blockdir::)?list_blocks', list_blocks)
+        def __init__(self):
+            self.results = []
+
+    def js_spawn(ex, c, a):
+        js = deref(a[0])
+        fut = a[1]
+        if isinstance(fut, Agg) and fut.ty.startswith('{'):
+            r = ex.poll_coroutine(fut)
+            js.results.append(r.fields[0])
+            return Opaque('AbortHandle')
+        raise Unsupported('JoinSet::spawn of %r' % (fut,))
+
+    def js_join_next(ex, c, a):
+        js = deref(a[0])
+        return M.ReadyFuture(lambda: some(ok(js.results.pop(0))) if js.results else none())
+
+    def js_join_all(ex, c, a):
+        js = deref(a[0])
+        return M.ReadyFuture(lambda: VecV(list(js.results)))
+    add(r'(?:tokio::task::)?JoinSet::<.*>::new', lambda ex, c, a: JoinSetV())
+    add(r'(?:tokio::task::)?JoinSet::<.*>::spawn::<.*>', js_spawn)
+    add(r'(?:tokio::task::)?JoinSet::<.*>::join_next', js_join_next)
+    add(r'(?:tokio::task::)?JoinSet::<.*>::join_all', js_join_all)
+    add(r'(?:tokio::sync::)?Semaphore::new|(?:tokio::sync::)?Semaphore::const_new', lambda ex, c, a: Opaque('Semaphore'))
+    add(r'(?:tokio::sync::)?Semaphore::acquire', lambda ex, c, a: M.ReadyFuture(lambda: ok(Opaque('permit'))))
 
     def lru_new(ex, c, a):
         return M.MapV()
